@@ -441,6 +441,13 @@ func (ev *evalCtx) call(e *Expr) Term {
 			return Term{app("s_len", a.S), "Int", nil}
 		case "Str":
 			return Term{app("slen", a.S), "Int", nil}
+		case "Ref":
+			if a.T != nil {
+				if _, isMap := types.Unalias(a.T).Underlying().(*types.Map); isMap {
+					cs := ev.tr.mapComps(a.T)
+					return Term{app(ev.tr.maplenFun(cs[0]), app("select", ev.tr.get(ev.cur, cs[0], ev.tr.compSort[cs[0]]), a.S)), "Int", nil}
+				}
+			}
 		}
 		ev.fail("len of sort %s", a.Sort)
 	case "cap":
@@ -586,6 +593,26 @@ func (ev *evalCtx) call(e *Expr) Term {
 			return ev.tr.resolveVarAt(name, hdr.header, -1, hdr.hdrState, nil)
 		}
 		return n.eval(e.Args[1])
+	case "mhas", "mget":
+		// mhas(m, k) / mget(m, k): presence and value of key k in the Go map m
+		m, k := arg(0), arg(1)
+		var mt *types.Map
+		if m.T != nil {
+			mt, _ = types.Unalias(m.T).Underlying().(*types.Map)
+		}
+		if mt == nil {
+			ev.fail("%s: first argument is not a Go map", e.Name)
+		}
+		cs := ev.tr.mapComps(m.T)
+		ks, vs := c.sortOf(mt.Key()), c.sortOf(mt.Elem())
+		if k.Sort != ks {
+			ev.fail("%s: key has sort %s, the map's keys have sort %s", e.Name, k.Sort, ks)
+		}
+		pres := and(not(app("=", m.S, "nilref")), app("select", app("select", ev.tr.get(ev.cur, cs[0], ev.tr.compSort[cs[0]]), m.S), k.S))
+		if e.Name == "mhas" {
+			return Term{pres, "Bool", nil}
+		}
+		return Term{app("select", app("select", ev.tr.get(ev.cur, cs[1], ev.tr.compSort[cs[1]]), m.S), k.S), vs, mt.Elem()}
 	case "heap":
 		// heap("dials.Dials.cbch") : the heap component as an array
 		name := ev.strArg(e.Args[0])
